@@ -1,11 +1,16 @@
 import DaeVerif.C05.Model
+import DaeVerif.C05.ModelX
 import DaeVerif.Common.Proto
 /-!
 Line-protocol driver for C05 (op grammar: see harness/overlay/control/c05_test.go).
 
   copy <stack> <env3> <eof|err> <chunk,chunk,…|->
   wrap <stack> <eof|err> <chunk,…|-> <act,act,…>     act = r<n> | t | p | c | w | d
-  conn t0= p53= sniff= w= unpack= ctl= likely= nm= rcw= lcw= c=<script> u=<script>
+  conn t0= p53= sniff= w= unpack= ctl= likely= nm= rcw= lcw= c=<script> u=<script> [ucap= ccap= cancel= dialfail=]
+  copy … cap=<n>                                    destination fails after n bytes
+  wv segs=<chunk,…|-> body=<chunk|-> sched=<step,…|->      step = <n><o|i|a|A|x>   (relayBuildWriteSegments + relayWritevAll)
+  adv segs=<chunk,…|-> n=<k>                               relayAdvanceSegments
+  sp src=<chunk|-> sched=<step,…|->                        step = <n><o|e|x>[!]    (relaySpliceCopyExact; ! = ctx cancelled during the call)
 
 chunk  = h<hex> | g<seed>.<len>            (g: generated pattern, byte i = (seed + 7 i + i/251) mod 256)
 script = <t>:<chunk>;…;<finT>:<E|R>
@@ -111,6 +116,51 @@ def runWrap : List String → Stack → Base → List String
         s!"{digest r.1.data}/{errStr r.1.err}" :: runWrap as r.2.1 r.2.2
       | none => ["bad-act"]
 
+def parseWvStep? (tok : String) : Option WvStep := do
+  let cs := tok.toList
+  let code ← cs.getLast?
+  let n ← (String.ofList cs.dropLast).toNat?
+  let e ← match code with
+    | 'o' => some WvErr.none
+    | 'i' => some WvErr.eintr
+    | 'a' => some (WvErr.eagain true)
+    | 'A' => some (WvErr.eagain false)
+    | 'x' => some WvErr.other
+    | _ => none
+  pure ⟨n, e⟩
+
+def parseWvSched? (tok : String) : Option (List WvStep) :=
+  if tok = "-" then some [] else (tok.splitOn ",").mapM parseWvStep?
+
+def wvEndStr : WvEnd → String
+  | .ok => "ok" | .err => "err" | .short => "short" | .waitErr => "wait" | .exhausted => "exhausted"
+
+def parseSpStep? (tok : String) : Option SpStep := do
+  let cs := tok.toList
+  let cancel := cs.getLast? == some '!'
+  let cs := if cancel then cs.dropLast else cs
+  let code ← cs.getLast?
+  let n ← (String.ofList cs.dropLast).toNat?
+  let e ← match code with
+    | 'o' => some SpErr.none
+    | 'e' => some SpErr.eof
+    | 'x' => some SpErr.other
+    | _ => none
+  pure ⟨n, e, cancel⟩
+
+def parseSpSched? (tok : String) : Option (List SpStep) :=
+  if tok = "-" then some [] else (tok.splitOn ",").mapM parseSpStep?
+
+def spEndStr : SpEnd → String
+  | .ok => "ok" | .err => "err" | .short => "short" | .exhausted => "exhausted"
+
+/-- optional `k=<n>` token: absent or `-` = none -/
+def optNat (toks : List String) (k : String) : Option (Option Nat) :=
+  match kv toks k with
+  | none => some none
+  | some "-" => some none
+  | some v => v.toNat?.map some
+
 def handle (line : String) : String :=
   match words line with
   | ["copy", st, env, term, chunks] =>
@@ -121,6 +171,40 @@ def handle (line : String) : String :=
       let o := engineCopy env (st.measure b + 1) st b
       s!"out={digest o.bytes} ok={boolStr o.ok}"
     | _, _, _ => "bad-op"
+  | ["copy", st, env, term, chunks, capTok] =>
+    match parseStack? st, parseEnv? env, parseChunks? chunks, ((capTok.drop 4).toString.toNat?) with
+    | some st, some env, some cs, some cap =>
+      let b : Base := ⟨cs, if term.startsWith "eof" then .eof else .err, term.endsWith "+"⟩
+      let o := engineCopyW env (st.measure b + 1) st b cap
+      s!"out={digest o.bytes} ok={boolStr o.ok}"
+    | _, _, _, _ => "bad-op"
+  | "wv" :: toks =>
+    let r : Option String := do
+      let segs ← parseChunks? (← kv toks "segs")
+      let bodyTok ← kv toks "body"
+      let body ← if bodyTok = "-" then some [] else parseChunk? bodyTok
+      let sched ← parseWvSched? (← kv toks "sched")
+      let ws := buildWriteSegs segs body
+      let o := writevAll sched ws
+      let lens := if ws.isEmpty then "-" else ",".intercalate (ws.map fun s => toString s.length)
+      pure s!"built={lens} sink={digest o.sink} n={o.written} end={wvEndStr o.fin}"
+    r.getD "bad-op"
+  | "adv" :: toks =>
+    let r : Option String := do
+      let segs ← parseChunks? (← kv toks "segs")
+      let n ← (← kv toks "n").toNat?
+      let a := advanceSegs segs n
+      let lens := if a.isEmpty then "-" else ",".intercalate (a.map fun s => toString s.length)
+      pure s!"lens={lens} d={digest a.flatten}"
+    r.getD "bad-op"
+  | "sp" :: toks =>
+    let r : Option String := do
+      let srcTok ← kv toks "src"
+      let src ← if srcTok = "-" then some [] else parseChunk? srcTok
+      let sched ← parseSpSched? (← kv toks "sched")
+      let o := spliceCopy sched src
+      pure s!"dst={digest o.st.dst} n={o.st.written} end={spEndStr o.fin} pooled={boolStr o.pooled} inpipe={o.st.pipe.length}"
+    r.getD "bad-op"
   | ["wrap", st, term, chunks, acts] =>
     match parseStack? st, parseChunks? chunks with
     | some st, some cs =>
@@ -140,20 +224,24 @@ def handle (line : String) : String :=
         offer := ← parsePairs? (← kv toks "or"), rightCW := ← b "rcw", leftCW := ← b "lcw" }
       let c ← parseScript? (← kv toks "c")
       let u ← parseScript? (← kv toks "u")
-      let o := conn cfg c u
+      let flt : Faults := {
+        upCap := ← optNat toks "ucap", clCap := ← optNat toks "ccap", cancelAt := ← optNat toks "cancel",
+        dialFails := (kv toks "dialfail") == some "1" }
+      let faulty := flt.upCap.isSome || flt.clCap.isSome || flt.cancelAt.isSome
+      let o := connF cfg flt c u
       let dial := match o.dial with | some t => toString t | none => "-"
       -- presentation only (the harness applies the same two rules to what the peers saw):
       -- (1) a peer that reset its own connection stops observing at that moment;
       -- (2) when the relay collapses at the very instant it started, what the other direction
       --     managed to hand to the client in that instant is a scheduling race and is not compared.
       let clEof := if c.fin == .reset then min o.clEof c.finT else o.clEof
-      let upEof := if u.fin == .reset && o.dial.isSome then min o.upEof u.finT else o.upEof
+      let upEof := if u.fin == .reset && o.dial.isSome && !flt.dialFails then min o.upEof u.finT else o.upEof
       let cl := if o.dial == some o.ret then o.cl.filter (fun d => d.t != o.ret) else o.cl
       let cl := if c.fin == .reset then cl.filter (fun d => d.t < c.finT) else cl
       let up := if u.fin == .reset then o.up.filter (fun d => d.t < u.finT) else o.up
       -- (2') same instant, client already gone (reset before the dial): the other direction's write
       --      to the dead client fails and may force-close before the buffered prefix is forwarded
-      let up := if o.dial == some o.ret && c.fin == .reset then up.filter (fun d => d.t != o.ret) else up
+      let up := if o.dial == some o.ret && (c.fin == .reset || faulty) then up.filter (fun d => d.t != o.ret) else up
       pure s!"dial={dial} armed={boolStr o.armedAtDial} up={delivStr up} upeof={upEof} cl={delivStr cl} cleof={clEof} ret={o.ret}"
     r.getD "bad-op"
   | _ => "bad-op"
